@@ -12,6 +12,7 @@ import (
 	"math"
 	"net/http"
 	"sync"
+	"sync/atomic"
 	"time"
 
 	"go.amzn.com/lambda/core/directinvoke"
@@ -633,6 +634,9 @@ func (s *Server) Invoke(responseWriter http.ResponseWriter, invoke *interop.Invo
 	resetCtx, resetCancel := context.WithCancel(context.Background())
 	defer resetCancel()
 
+	// set when this invocation hit its timeout, before the resulting reset is requested
+	var timedOut atomic.Bool
+
 	timeoutChan := make(chan error)
 	go func() {
 		select {
@@ -691,6 +695,13 @@ func (s *Server) Invoke(responseWriter http.ResponseWriter, invoke *interop.Invo
 				}
 			}
 
+			if timedOut.Load() {
+				// The invocation timed out while it was still waiting for init and the
+				// environment has been reset on its behalf. Dispatching it now would run
+				// it, unowned, in the next generation (and in front of the next caller).
+				return
+			}
+
 			if err := s.FastInvoke(responseWriter, invoke, false); err != nil {
 				log.Debugf("FastInvoke() error: %s", err)
 			}
@@ -725,6 +736,7 @@ func (s *Server) Invoke(responseWriter http.ResponseWriter, invoke *interop.Invo
 	var err error
 	select {
 	case timeoutErr := <-timeoutChan:
+		timedOut.Store(true)
 		verifhook.Point("invoke.timeoutFired")
 		s.Reset(autoresetReasonTimeout, resetDefaultTimeoutMs)
 		select {
